@@ -18,7 +18,7 @@ package afpacket
 //@   entry row read: [call ZeroCopyReadPacketData(s.handle) as (d, ci, e)] when ret0 == d && ret2 == e && ret1 != nil -> exit
 
 //@ func NewPacketSource
-//@   props C17 C03 C01 C05 C07 C11 C13 C15 C16 C19 C12
+//@   props C17 C03 C01 C05 C07 C11 C13 C15 C16 C19 C12 C02
 //@   observe NewTPacket
 //@   entry row fail: [call NewTPacket(bind_o) as (h, e)] when e != nil && ret0 == nil && ret1 == e
 //@                      && len(o) == 2 && istype(o[1], afp.OptInterface) && astype(o[1], afp.OptInterface) == iface -> exit
